@@ -561,7 +561,7 @@ def ace_reading_alone(single):
     SENT: line as its surface string"""
     first, _, rest = single.partition("\n")
     assert first.startswith("SENT: ")
-    m = util.import_codec("simplemrs").decode(rest.split(" ;  (")[0].strip())
+    m = read_string_or_file(util.import_codec("simplemrs"), rest.split(" ;  (")[0].strip(), True)
     m.surface = first[len("SENT: "):].rstrip()
     return m
 
@@ -582,6 +582,71 @@ def gen_ace_layout(rng, n):
     if rng.random() < 0.3:
         layout.append(rng.choice([0, "skip"]))
     return layout
+
+
+# characters at which str.splitlines() breaks but a text-mode file line does not (ordinary characters of a line)
+SEP_CHARS = ["\x85", "\u2028", "\u2029", "\x0b", "\x0c", "\x1c", "\x1d", "\x1e"]
+XML_SAFE_SEPS = ["\x85", "\u2028", "\u2029"]      # XML 1.0 cannot carry the C0 controls at all (a codec matter, kept out)
+# codecs whose STRING readers (loads/decode) cut the text with str.splitlines() (penman: inside the library), while
+# their FILE readers (load) iterate the lines of the file
+SPLIT_READERS = {"simplemrs", "simpledmrs", "eds", "indexedmrs", "ace", "dmrspenman", "edspenman"}
+FINDING_TAG = "string-reader-splitlines"
+
+
+def finding_id(tag):
+    """id under which the coordinator listed the C20 finding with this tag in known_findings.json (None: not listed)"""
+    try:
+        with open(os.path.join(paths.VERIF, "known_findings.json"), encoding="utf-8") as f:
+            fs = json.load(f).get("findings", [])
+    except Exception:
+        return None
+    for f in fs:
+        if f.get("property") == "C20" and f.get("status") == "known" and \
+                (f.get("tag") == tag or "splitlines" in f.get("what", "")):
+            return f.get("id")
+    return None
+
+
+def sep_affected(case):
+    """is the case in the input class of the finding: strings with one of SEP_CHARS and a conversion that reads a
+    splitlines-codec through its STRING reader (profile field, '-lines' line, ACE's inner SimpleMRS) or writes a
+    target whose loads()/decode() is such a reader"""
+    if case.get("kind") != "convert" or not case.get("sep"):
+        return False
+    s, sl = norm_name(case["src"])
+    t, tl = norm_name(case["tgt"])
+    return (s in SPLIT_READERS and (s == "ace" or sl or case["input"] == "dir")) or (t in SPLIT_READERS and t in READABLE)
+
+
+def add_sepchars(rng, rep, items, chars):
+    """put the characters (cycling through `chars`) into quoted strings of the items: every constant, every surface
+    string that is there; at least one constant per item"""
+    k = rng.randrange(len(chars))
+    for it in items:
+        units = it["rels"] if rep == "mrs" else it["nodes"]
+        if not any(u.get("carg") is not None for u in units):
+            units[0]["carg"] = "Kim"
+        for u in units:
+            if u.get("carg") is not None:
+                u["carg"] = u["carg"][:1] + chars[k % len(chars)] + u["carg"][1:]
+                k += 1
+            if u.get("surface") is not None and rng.random() < 0.7:
+                u["surface"] = chars[k % len(chars)] + u["surface"]
+                k += 1
+        if it.get("msurface") is not None:
+            it["msurface"] = it["msurface"] + chars[k % len(chars)] + "."
+            k += 1
+    return items
+
+
+def read_string_or_file(c, text, single):
+    """what the codec reads from `text`: its string reader, and if that fails its file reader on the same text
+    (`single`: one structure via decode / the first of load)"""
+    try:
+        return c.decode(text) if single else c.loads(text)
+    except Exception:
+        xs = c.load(io.StringIO(text))
+        return xs[0] if single else xs
 
 
 DUP_MODES = ["adjacent", "nonadjacent", "allsame"]
@@ -839,6 +904,7 @@ class C20(Check):
         def fresh():
             return gen(rng, tricky and not penman)
         items = [fresh() for _ in range(n)]
+        sep = over.pop("sep", None)
         dup = over.pop("dup", None)
         if dup is None and n >= 1 and rng.random() < 0.4:
             dup = rng.choice(DUP_MODES)
@@ -866,7 +932,61 @@ class C20(Check):
                     for ep in eps[:1] + [e for e in eps[1:] if e["carg"] is not None]:
                         ep["carg"] = rng.choice(ACE_CARGS)
         case.update(over)
+        if sep is None:
+            sep = rng.random() < 0.12
+        self.apply_sep(rng, case, sep)
         return case
+
+    def apply_sep(self, rng, case, sep):
+        """items whose quoted strings hold characters at which str.splitlines() breaks (U+0085, U+2028, U+2029, VT, FF,
+        FS, GS, RS); XML formats only get the three that XML 1.0 can carry; the input class of the C20 finding is only
+        generated when the finding is listed (it is then classified), otherwise left out"""
+        case["sep"] = False
+        s_, _ = norm_name(case["src"])
+        t_, _ = norm_name(case["tgt"])
+        if not sep or not case["items"] or "indexedmrs" in (s_, t_) or case.get("isolation") or case.get("long"):
+            return
+        chars = list(SEP_CHARS if sep is True else sep)
+        if s_ in XML_FAMILY or t_ in XML_FAMILY:
+            chars = [c for c in chars if c in XML_SAFE_SEPS]
+        if not chars:
+            return
+        case["sep"] = True
+        if sep_affected(case) and finding_id(FINDING_TAG) is None:
+            case["sep"] = False
+            return
+        add_sepchars(rng, case["rep"], case["items"], chars)
+
+    def sep_cases(self, rng):
+        kk = 0
+        inputs = ("path", "pathobj", "file", "stream")
+        # (i) '-lines' SOURCES: every readable codec with a '-lines' variant x path / Path / open file / stream
+        for s in READABLE:
+            if s in ("ace", "indexedmrs"):
+                continue
+            ts = [x for x in TARGETS if supported(s, x)]
+            for inp in inputs:
+                kk += 1
+                yield self.mk_case(rng, s, ts[kk % len(ts)], n=3 + kk % 2, src=SPELLINGS[s][0] + "-lines", input=inp,
+                                   sep=True, dup="none", lnk=True)
+        # (ii) '-lines' TARGETS: exactly N '\n'-terminated lines
+        for t in WRITABLE:
+            if t == "indexedmrs":
+                continue
+            ss = [x for x in SOURCES if supported(x, t) and x != "ace"]
+            for j in range(2):
+                kk += 1
+                yield self.mk_case(rng, ss[kk % len(ss)], t, n=3, tgt=SPELLINGS[t][0] + "-lines", sep=True, dup="none",
+                                   lnk=True, input=inputs[kk % 4])
+        # (iii) ordinary (multi-line) sources with those characters, every input kind
+        for s in SOURCES:
+            ts = [x for x in TARGETS if supported(s, x)]
+            for inp in inputs + ("dir",):
+                if s == "ace" and inp == "dir":
+                    continue
+                kk += 1
+                yield self.mk_case(rng, s, ts[kk % len(ts)], n=3, src=SPELLINGS[s][0], input=inp, src_indent=[2, None][kk % 2],
+                                   sep=True, dup="none", lnk=True, tgt=SPELLINGS[ts[kk % len(ts)]][0])
 
     def cases(self, rng, tier, n):
         yield integration.block_case(tier)
@@ -916,6 +1036,8 @@ class C20(Check):
         #     XML/JSON sources beyond 16 KiB and 64 KiB, through every input kind, to same- and cross-representation
         #     targets with and without '-lines'
         yield from self.long_cases(rng)
+        # --- characters that str.splitlines() treats as line ends inside quoted strings
+        yield from self.sep_cases(rng)
         # --- shapes of earlier seeded changes, kept deterministic
         kk = 0
         #   (a) profile rows with identical strings in the pattern A B B A: 4 structures, for every query and source
@@ -1177,6 +1299,8 @@ class C20(Check):
             return None, "PyDelphinException:" + type(e).__name__
         except (KeyError, IndexError, ValueError, TypeError, AssertionError) as e:
             return None, type(e).__name__
+        except Exception as e:      # e.g. xml ParseError (a SyntaxError)
+            return None, type(e).__name__
         finally:
             if fh is not None:
                 fh.close()
@@ -1244,8 +1368,10 @@ class C20(Check):
                 try:
                     if src == "ace":
                         x = ace_reading_alone(singles[i])
+                    elif sl:
+                        x = read_string_or_file(sc, singles[i], True)
                     else:
-                        x = sc.decode(singles[i]) if sl else sc.loads(singles[i])[0]
+                        x = read_string_or_file(sc, singles[i], False)[0]
                 except Exception as e:
                     res.append(("own", "read:" + type(e).__name__))
                     continue
@@ -1273,6 +1399,8 @@ class C20(Check):
             if norm_name(case["src"]) == ("indexedmrs", False):
                 return None
             return {"op": "plan", "src": cps(case["src"]), "tgt": cps(case["tgt"]), "nproj": case["nproj"]}
+        if sep_affected(case):
+            return None          # the code raises in / writes text for a reader of the finding's class
         try:
             per = self.per_item(case)
         except Exception:
@@ -1335,7 +1463,7 @@ class C20(Check):
                             fail("a line of '-lines' output is not readable by the target codec",
                                  repr((i, type(e).__name__, ln[:200])))
                             break
-                        want = view(tc.decode(p[1]))
+                        want = view(read_string_or_file(tc, p[1], True))
                         if got != want:
                             fail("a line of '-lines' output decodes to a different structure than the item on its own",
                                  repr((i, got, want)))
@@ -1349,16 +1477,19 @@ class C20(Check):
                 try:
                     back = tc.loads(out)
                 except Exception as e:
-                    back = None
                     fail("the target codec cannot read the converted document",
                          repr((tgt, n, case["indent"], type(e).__name__, str(e)[:200], out[:300])))
+                    try:
+                        back = tc.load(io.StringIO(out))     # its file reader, to go on with count and order
+                    except Exception:
+                        back = None
                 if back is not None:
                     if len(back) != n:
                         fail("the target codec reads a different number of structures than items were converted",
                              repr((tgt, n, len(back))))
                     else:
                         for i, (b, p) in enumerate(zip(back, good)):
-                            want = view(tc.decode(p[1]))
+                            want = view(read_string_or_file(tc, p[1], True))
                             if view(b) != want:
                                 fail("a structure read back differs from converting and encoding that item on its own",
                                      repr((i, view(b), want)))
@@ -1395,7 +1526,7 @@ class C20(Check):
                 try:
                     back_txt = commands.convert(io.StringIO(out), tgt, src, properties=case["properties"],
                                                 lnk=case["lnk"], indent=case["indent"])
-                    again = sc.loads(back_txt)
+                    again = read_string_or_file(sc, back_txt, False)
                 except Exception as e:
                     again = None
                     fail("transcoding back to the source format fails", repr((src, tgt, type(e).__name__, str(e)[:200])))
@@ -1404,7 +1535,8 @@ class C20(Check):
                     idx = list(range(len(singles)))
                     if case["input"] == "dir":
                         _, idx = self._selected(case, len(singles))
-                    orig = [(sc.decode(singles[i]) if sl else sc.loads(singles[i])[0]) for i in idx]
+                    orig = [(read_string_or_file(sc, singles[i], True) if sl
+                             else read_string_or_file(sc, singles[i], False)[0]) for i in idx]
                     if len(again) != len(orig):
                         fail("transcoding there and back changes the number of structures", repr((len(orig), len(again))))
                     else:
@@ -1475,7 +1607,15 @@ class C20(Check):
             fail("'-lines' output for zero items is not empty", repr(out))
 
     def classify(self, case, failure):
-        return None
+        """the one C20 finding: strings holding U+0085/U+2028/U+2029/VT/FF/FS/GS/RS and a conversion that goes through
+        the STRING reader of a splitlines-codec (profile field, '-lines' source line, ACE's inner SimpleMRS) or writes
+        such a codec as target (whose loads()/decode() then cannot read the text that its load() can)"""
+        if not sep_affected(case):
+            return None
+        clause = str(failure.get("clause", ""))
+        if clause.startswith("harness:"):
+            return None
+        return finding_id(FINDING_TAG)
 
     def nontrivial_key(self, case, res):
         if case["kind"] == "convert" and not case["items"]:
@@ -1499,6 +1639,11 @@ class C20(Check):
         inc("input:" + case["input"])
         inc("indent:" + str(case["indent"]))
         inc("dup:" + case.get("dup", "none"))
+        if case.get("sep"):
+            inc("sepchars")
+            inc("sepchars:" + ("src-lines" if sl else case["input"]) + (":tgt-lines" if tl else ""))
+            if sep_affected(case):
+                inc("sepchars:in the finding's class")
         if s == "ace":
             for b in (case.get("ace_layout") or []):
                 inc("ace:sentence with %s" % ("SKIP" if b == "skip" else "%s readings" % (b if b < 3 else "3+")))
